@@ -807,8 +807,53 @@ func (p cdcCparams) trainSize(r *core.Rand) int {
 
 // cdcGenHistory draws a history: shape 0 empty, 1 untrained adds (rejected by the
 // trainable kinds), 2 all removed, 3 re-trained, 4 larger, 5 ordinary.
+// cdcOddCorpus draws document lengths (in words) of a text corpus with an "odd" shape: n documents
+// with T tokens in total where T/n is not exact — preferably a pair for which even
+// float64(T)/n*n does not give T back (about 2% of small shapes, e.g. 11 documents with
+// 15 tokens) — so that statistics which are stored cannot be confused with statistics
+// re-derived from each other.
+func cdcOddCorpus(r *core.Rand, maxDocs int) []int {
+	// the tokenizer (UAX#29 segments) also yields the blanks between words: a text of w
+	// words has 2w-1 tokens, so T and n have the same parity
+	n, t := 0, 0
+	for try := 0; try < 600; try++ {
+		n = r.Range(2, max(3, maxDocs))
+		t = n + 2*r.Range(0, n+10)
+		if int(float64(t)/float64(n)*float64(n)) != t {
+			break
+		}
+		if try > 500 && t%n != 0 {
+			break
+		}
+	}
+	words := make([]int, n)
+	for i := range words {
+		words[i] = 1
+	}
+	for k := (t - n) / 2; k > 0; k-- {
+		words[r.Intn(n)]++
+	}
+	return words
+}
+
+func cdcGenTextN(r *core.Rand, n int) string {
+	w := make([]string, n)
+	for i := range w {
+		w[i] = cdcCodecWords[r.Intn(len(cdcCodecWords))]
+	}
+	return strings.Join(w, " ")
+}
+
 func cdcGenHistory(r *core.Rand, p cdcCparams, shape int, maxAdds int) (cmds []cdcCcmd, ids []uint32) {
 	next := uint32(r.Range(1, 5))
+	// text kinds: now and then a corpus of an odd shape (document lengths fixed up front,
+	// every add carries text, few or no removals)
+	var oddLens []int
+	hasText := p.Kind == "bm25" || (p.Kind == "hybrid" && p.Txt)
+	if hasText && shape >= 4 && r.Chance(0.4) {
+		oddLens = cdcOddCorpus(r, 2*maxAdds)
+	}
+	odd := len(oddLens) > 0
 	add := func() {
 		c := cdcCcmd{Op: "add", ID: next}
 		next += uint32(r.Range(1, 3))
@@ -819,7 +864,10 @@ func cdcGenHistory(r *core.Rand, p cdcCparams, shape int, maxAdds int) (cmds []c
 			c.Vec = cdcGenCVec(r, p.Dim)
 			c.Level = []int{0, 0, 0, 1, 1, 2, 3}[r.Intn(7)]
 		}
-		if p.Kind == "bm25" || (p.Kind == "hybrid" && p.Txt && r.Chance(0.85)) {
+		if len(oddLens) > 0 {
+			c.Text = cdcGenTextN(r, oddLens[0])
+			oddLens = oddLens[1:]
+		} else if p.Kind == "bm25" || (p.Kind == "hybrid" && p.Txt && r.Chance(0.85)) {
 			c.Text = cdcGenText(r)
 		}
 		if p.Kind == "meta" || (p.Kind == "hybrid" && p.Md && r.Chance(0.85)) {
@@ -873,6 +921,18 @@ func cdcGenHistory(r *core.Rand, p cdcCparams, shape int, maxAdds int) (cmds []c
 		n := r.Range(3, maxAdds)
 		if shape == 4 {
 			n = maxAdds + r.Range(0, maxAdds)
+		}
+		if odd { // exactly the odd corpus, then (half of the time) a removal + flush or two
+			for len(oddLens) > 0 {
+				add()
+			}
+			for k := r.Pick(2, 1, 1); k > 0; k-- {
+				remove()
+				if r.Chance(0.7) {
+					cmds = append(cmds, cdcCcmd{Op: "flush"})
+				}
+			}
+			return cmds, ids
 		}
 		for i := 0; i < n; i++ {
 			switch r.Pick(12, 3, 1, 1) {
